@@ -3,7 +3,7 @@
    at the R instance of the numeric record; kernels S and D, areas and vertex positions are arbitrary.
    Hypothesis wf_indexed = the conclusion of C11's generate_indices_bijection for the dumped geometry. *)
 From Coq Require Import List NArith ZArith Reals.
-From OM Require Import Base.Ops Geom.Assembly Geom.AssemblyProofs.
+From OM Require Import Base.Ops Geom.Assembly Geom.AssemblyProofs Geom.DeflateValue.
 From OM Require Geom.InverseMC.
 Import ListNotations.
 Local Open Scope R_scope.
@@ -53,6 +53,15 @@ Theorem deflate_support : forall (g : igeom R) M r c, (~ In r (outer_idx g) \/ ~
   mget RO (deflate RO g M) r c = mget RO M r c.
 Proof. exact (deflate_frame (fun _ => (0, 0, 0)) (fun _ => 0) (fun _ _ => 0) (fun _ _ _ => 0)). Qed.
 Print Assumptions deflate_support.
+
+(* ... and on the vertex block of one outermost mesh it is the rank-one update coef * 1 1^T: every cell, diagonal
+   included, receives coef exactly once (vertices duplicate free with pairwise different indices) *)
+Theorem deflate_adds_constant_on_outer_block : forall (g : igeom R) coef vs, NoDup vs ->
+  (forall u v, In u vs -> In v vs -> vix g u = vix g v -> u = v) ->
+  forall M r c, In r vs -> In c vs ->
+  mget RO (deflate_mesh RO g M coef vs) (vix g r) (vix g c) = mget RO M (vix g r) (vix g c) + coef.
+Proof. exact deflate_mesh_value. Qed.
+Print Assumptions deflate_adds_constant_on_outer_block.
 
 (* every potential row whose vertex is not on an outermost mesh of a deflated part sums to zero over all
    potential columns -- whatever the kernels S and D, conductivities, orientations, ordering of unknowns.
